@@ -158,7 +158,12 @@ class ExprTupleKey:
             # Comparing form compiler data
             mds = canonicalize_metadata(self.x[1])
             mdo = canonicalize_metadata(other.x[1])
-            return mds < mdo
+            try:
+                return mds < mdo
+            except TypeError:
+                # Values of different structure under the same key,
+                # e.g. a number in one and a tuple in the other
+                return repr(mds) < repr(mdo)
 
 
 def group_integrals_by_domain_and_type(integrals, domains):
